@@ -8,6 +8,7 @@ import (
 	"sort"
 	"strconv"
 	"strings"
+	"sync"
 
 	"wa-lang.org/wa/internal/native/abi"
 	"wa-lang.org/wa/internal/native/x64"
@@ -36,6 +37,8 @@ import (
 //     end of the instruction (asm/asm_func_x64.go: op.Imm = targetPC - pc)
 //  X7 [rip+disp] is x/arch Mem{Base: RIP}; Reg==0 is absolute [disp32]
 //  X8 shifts by cl: Wa passes register cl as source operand.
+//  X10 llvm-mc prints the shift-by-one opcodes (D0/D1) without the count operand: count 1 is added.
+//  X9 mov r64, imm with 0 <= imm < 2^32 may be encoded as mov r32, imm32 (see xNormalize).
 // Registers are compared by Intel name (x64.RegString vs the name table below).
 
 type xc int
@@ -369,7 +372,8 @@ func xFromXarch(inst x86asm.Inst) (cinst, bool) {
 			if c.Op == "lea" {
 				bytes = 0
 			}
-			c.add(fn, 'm', 0).Aux = xMemAux(bytes, b, v.Disp)
+			// x/arch keeps a 32-bit displacement zero-extended; the hardware sign-extends it
+			c.add(fn, 'm', 0).Aux = xMemAux(bytes, b, int64(int32(v.Disp)))
 		case x86asm.Imm:
 			f := c.add(fn, 'i', int64(v))
 			f.W = xImmWidth(c.Op, inst.DataSize, inst.MemBytes, inst)
@@ -416,6 +420,50 @@ func xImmWidth(op string, dataSize, memBytes int, inst x86asm.Inst) uint8 {
 	return 0
 }
 
+var xLow32 = map[string]string{"rax": "eax", "rcx": "ecx", "rdx": "edx", "rbx": "ebx", "rsp": "esp", "rbp": "ebp", "rsi": "esi", "rdi": "edi",
+	"r8": "r8d", "r9": "r9d", "r10": "r10d", "r11": "r11d", "r12": "r12d", "r13": "r13d", "r14": "r14d", "r15": "r15d"}
+
+// xNormalize applies exception X9: `mov r64, imm` with 0 <= imm < 2^32 may be encoded as
+// `mov r32, imm32` (the upper half is zeroed by the hardware: same architectural effect, this
+// is what Go's and GNU's assemblers do for non-movabs mov).
+func xNormalize(exp, got *cinst) {
+	if exp.Op != "mov" || got.Op != "mov" || exp.N != 2 || got.N != 2 {
+		return
+	}
+	e0, e1, g0, g1 := &exp.F[0], &exp.F[1], &got.F[0], &got.F[1]
+	if e1.Kind != 'i' || g1.Kind != 'i' || e0.Kind != 'm' || g0.Kind != 'm' {
+		return
+	}
+	if lo, ok := xLow32[e0.Aux]; ok && lo == g0.Aux && e1.Val >= 0 && e1.Val <= 1<<32-1 && uint32(g1.Val) == uint32(e1.Val) {
+		g0.Aux = e0.Aux
+		g1.Val = e1.Val
+	}
+}
+
+func xHasHighByte(ops []xOperand) bool {
+	for _, o := range ops {
+		if o.cls == xR8H {
+			return true
+		}
+	}
+	return false
+}
+
+// xHasRex: a REX prefix (0x40..0x4f) precedes the opcode (after legacy prefixes 66/f2/f3).
+func xHasRex(code []byte) bool {
+	for _, b := range code {
+		switch {
+		case b == 0x66 || b == 0xf2 || b == 0xf3:
+			continue
+		case b >= 0x40 && b <= 0x4f:
+			return true
+		default:
+			return false
+		}
+	}
+	return false
+}
+
 func xEncode(as abi.As, arg *abi.X64Argument) (code []byte, ok bool, how string) {
 	defer func() {
 		if e := recover(); e != nil {
@@ -452,16 +500,19 @@ type xItem struct {
 }
 
 type xRunner struct {
-	r        *mc.Run
-	agg      *aggregator
-	llvm     bool
-	rejected map[string]int64
+	r     *mc.Run
+	agg   *aggregator
+	llvm  bool
+	qmu   sync.Mutex
+	queue []xCase
 }
 
 type xCase struct {
-	code []byte
-	exp  cinst
-	desc string
+	code  []byte
+	name  string
+	form  xform
+	ops   []xOperand
+	order int64
 }
 
 func xOperandString(o xOperand) string {
@@ -516,6 +567,7 @@ func (xr *xRunner) runItem(it xItem) (accepted, rejected int64) {
 	// reduce very large products: memory x immediate uses the full base/disp set with a reduced
 	// immediate list and the full immediate list with a reduced base/disp set
 	reported := map[string]bool{}
+	distinctSeen := map[string]bool{}
 	var lc []xCase
 	registered := false
 	group := it.form.String()
@@ -573,7 +625,11 @@ func (xr *xRunner) runItem(it xItem) (accepted, rejected int64) {
 			report("xarch", "op", "unmapped:"+got.Op, x86asm.IntelSyntax(inst, 0, nil))
 			return
 		}
+		xNormalize(&exp, &got)
 		if f, c := diff(&exp, &got); f != "" {
+			if c == "reg" && xHasHighByte(ops) && xHasRex(code) {
+				c = "reg:high-byte-register-with-rex-prefix"
+			}
 			report("xarch", f, c, x86asm.IntelSyntax(inst, 0, nil))
 			return
 		}
@@ -581,13 +637,16 @@ func (xr *xRunner) runItem(it xItem) (accepted, rejected int64) {
 		if s, ok := xWaDecode(code); !ok {
 			report("wadecode", "op", "undecodable", "error")
 			return
-		} else if s != inst.String() {
+		} else if s != x86asm.IntelSyntax(inst, 0, nil) {
 			report("wadecode", "op", "differs-from-xarch", s)
 			return
 		}
-		r.Distinct("x64|" + got.Op + "|" + it.form.String())
+		if !distinctSeen[got.Op] {
+			distinctSeen[got.Op] = true
+			r.Distinct("x64|" + got.Op + "|" + it.form.String())
+		}
 		if toLLVM && xr.llvm {
-			lc = append(lc, xCase{code: code, exp: exp, desc: desc})
+			lc = append(lc, xCase{code: code, name: it.name, form: it.form, ops: append([]xOperand(nil), ops...), order: order})
 		}
 	}
 	base := make([]int, len(al))
@@ -656,12 +715,30 @@ func (xr *xRunner) runItem(it xItem) (accepted, rejected int64) {
 		}
 	}
 	if xr.llvm && len(lc) > 0 {
-		xr.llvmCheck(it, lc, reported)
+		xr.qmu.Lock()
+		xr.queue = append(xr.queue, lc...)
+		xr.qmu.Unlock()
 	}
 	return
 }
 
-func (xr *xRunner) llvmCheck(it xItem, lc []xCase, reported map[string]bool) {
+func (xr *xRunner) flushLLVM() {
+	q := xr.queue
+	xr.queue = nil
+	if len(q) == 0 {
+		return
+	}
+	n := mc.NWorkers()
+	per := (len(q) + n - 1) / n
+	mc.ParallelFor(n, func(i int) {
+		lo, hi := i*per, min((i+1)*per, len(q))
+		if lo < hi {
+			xr.llvmCheck(q[lo:hi])
+		}
+	})
+}
+
+func (xr *xRunner) llvmCheck(lc []xCase) {
 	var codes [][]byte
 	for _, c := range lc {
 		codes = append(codes, c.code)
@@ -671,17 +748,18 @@ func (xr *xRunner) llvmCheck(it xItem, lc []xCase, reported map[string]bool) {
 		xr.r.HarnessError("llvm-mc x86: %v", err)
 		return
 	}
+	xr.r.Transitions.Add(int64(len(lc)))
 	for i, c := range lc {
-		xr.r.Transitions.Add(1)
+		exp := xExpected(c.name, c.form, c.ops)
 		report := func(field, class, gotStr string) {
-			k := "llvm|" + field + "|" + class
-			if reported[k] {
-				return
+			var ds []string
+			for _, o := range c.ops {
+				ds = append(ds, xOperandString(o))
 			}
-			reported[k] = true
-			xr.agg.add(&candidate{arch: "x64", group: "all", mnem: it.name, oracle: "llvm", field: field, class: class, order: int64(i),
-				what:   fmt.Sprintf("Encode(%s) [shape %s] = % x; asked: [%s]; llvm-mc says: [%s]", c.desc, it.form, c.code, c.exp.String(), gotStr),
-				replay: map[string]any{"arch": "x64", "as": it.name, "shape": it.form.String(), "asm": c.desc, "encoding": fmt.Sprintf("% x", c.code)}})
+			desc := c.name + " " + strings.Join(ds, ", ")
+			xr.agg.add(&candidate{arch: "x64", group: "all", mnem: c.name, oracle: "llvm", field: field, class: class, order: c.order,
+				what:   fmt.Sprintf("Encode(%s) [shape %s] = % x; asked: [%s]; llvm-mc says: [%s]", desc, c.form, c.code, exp.String(), gotStr),
+				replay: map[string]any{"arch": "x64", "as": c.name, "shape": c.form.String(), "asm": desc, "encoding": fmt.Sprintf("% x", c.code)}})
 		}
 		if len(texts[i]) != 1 {
 			report("op", "not-one-instruction", strings.Join(texts[i], " ; "))
@@ -692,7 +770,7 @@ func (xr *xRunner) llvmCheck(it xItem, lc []xCase, reported map[string]bool) {
 			report("op", "unparsed:"+got.Op, texts[i][0])
 			continue
 		}
-		exp := c.exp
+		xNormalize(&exp, &got)
 		if f, cl := diff(&exp, &got); f != "" {
 			report(f, cl, texts[i][0])
 		}
@@ -763,6 +841,12 @@ func xFromLLVM(text string) (cinst, bool) {
 			continue
 		}
 		c.add(fn, 'm', 0).Aux = o
+	}
+	switch c.Op { // X10
+	case "rol", "ror", "sar", "shl", "shr":
+		if c.N == 1 {
+			c.add("src", 'i', 1)
+		}
 	}
 	// widths for immediate aliasing: from the first operand
 	for i := 0; i < c.N; i++ {
